@@ -39,12 +39,12 @@ InitSt == [stack |-> <<>>, cur |-> NoCur, made |-> {}, reps |-> <<>>, phase |-> 
 Flag(s, ps, why) ==
     [s EXCEPT !.runbad = TRUE,
               !.vcount = [p \in Props |-> IF p \in ps THEN @[p] + 1 ELSE @[p]],
-              !.viol = IF Len(@) < 12 THEN Append(@, [l |-> l, why |-> why, props |-> ps]) ELSE @,
+              !.viol = IF Len(@) < 40 THEN Append(@, [l |-> l, why |-> why, props |-> ps]) ELSE @,
               !.refok = IF s.cur.isref THEN FALSE ELSE @]
 \* a deviation that is not about the protocol (message content): recorded, the run goes on being judged
 SoftFlag(s, ps, why) ==
     [s EXCEPT !.vcount = [p \in Props |-> IF p \in ps THEN @[p] + 1 ELSE @[p]],
-              !.viol = IF Len(@) < 12 THEN Append(@, [l |-> l, why |-> why, props |-> ps]) ELSE @]
+              !.viol = IF Len(@) < 40 THEN Append(@, [l |-> l, why |-> why, props |-> ps]) ELSE @]
 Seen(s, ps) == [s EXCEPT !.ncheck = [p \in Props |-> IF p \in ps THEN @[p] + 1 ELSE @[p]]]
 
 (* --------------------------------- runs --------------------------------- *)
@@ -149,7 +149,9 @@ OnErr(s, e) ==
         pick(S) == CHOOSE c \in S : \A d \in S : ObLeq(c.ob, d.ob)
         s1 == [s EXCEPT !.made = @ \cup {e.id}, !.reps = Append(@, ObsDesc(e)), !.nrep = @ + 1,
                         !.idp = Append(@, [id |-> e.id, ps |-> CASE e.det.k = "missing" -> {"C08"} [] e.det.k = "unknownkey" -> {"C09"}
-                                                                  [] e.det.k = "unknownvalue" -> {"C10"} [] OTHER -> {}]),
+                                                                  [] e.det.k = "unknownvalue" -> {"C10"}
+                                                                  [] e.det.k = "unexpected" /\ IsMapTarget(N) -> {"C06"}      \* a map key that cannot be parsed
+                                                                  [] e.det.k = "badlen" -> {"C06"} [] OTHER -> {}]),
                         !.nbrk = IF e.ans = "b" THEN @ + 1 ELSE @,
                         !.ref1 = IF s.cur.isref /\ ~@.has THEN [has |-> TRUE, mj |-> e.mj, mq |-> e.mq] ELSE @]
         kindprops == CASE e.det.k = "missing" -> {"C08"} [] e.det.k = "unknownkey" -> {"C09"} [] e.det.k = "unknownvalue" -> {"C10"}
